@@ -20,19 +20,19 @@ Lemma linear_ok xl yl P Q Rr S T U V W N :
     /\ a * Q + b * P = U /\ a * P + b * IZR N = T.
 Proof.
   intro Hd. unfold lin_det, TOL in Hd.
+  assert (Hnz : IZR N * Q - P * P <> 0).
+  { intro H0. rewrite H0, Rabs_R0 in Hd. Rlit_norm_in Hd. lra. }
   eexists. eexists. split.
-  - unfold cfobj. pyrun_using ltac:(first [exact Hd | pylra]). reflexivity.
-  - assert (IZR N * Q - P * P <> 0).
-    { intro H0. rewrite H0, Rabs_R0 in Hd. Rlit_norm_in Hd. lra. }
-    split; field; assumption.
+  - unfold cfobj. pyrun2 ltac:(first [exact Hd | exact Hnz | pylra_fast]) no_idx ltac:(fun s => fail). reflexivity.
+  - split; field; assumption.
 Qed.
 
 Lemma linear_refused xl yl P Q Rr S T U V W N :
   Rabs (lin_det (IZR N) P Q) < TOL ->
   CurveFitting_linear_fitting Rops (cfobj xl yl P Q Rr S T U V W N) = VErr ZeroDivisionError.
 Proof.
-  intro Hd. unfold lin_det, TOL in Hd.
-  unfold cfobj. pyrun_using ltac:(first [exact Hd | pylra]). reflexivity.
+  intro Hd. unfold lin_det, TOL in Hd. pose (Hnz := I).
+  unfold cfobj. pyrun2 ltac:(first [exact Hd | exact Hnz | pylra_fast]) no_idx ltac:(fun s => fail). reflexivity.
 Qed.
 
 (* the determinant exactly as the code computes it (2.0 is the literal 20e-1) *)
@@ -55,10 +55,10 @@ Proof.
   intro Hd.
   assert (Hnz : quad_det (IZR N) P Q Rr S <> 0).
   { intro H0. rewrite H0, Rabs_R0 in Hd. unfold TOL in Hd. Rlit_norm_in Hd. lra. }
-  unfold quad_det, TOL in Hd.
+  unfold quad_det, TOL in Hd. unfold quad_det in Hnz.
   eexists. eexists. eexists. split.
-  - unfold cfobj. pyrun_using ltac:(first [exact Hd | pylra]). reflexivity.
-  - unfold quad_det in Hnz. Rlit_norm_in Hnz. Rlit_norm.
+  - unfold cfobj. pyrun2 ltac:(first [exact Hd | exact Hnz | pylra_fast]) no_idx ltac:(fun s => fail). reflexivity.
+  - Rlit_norm_in Hnz. Rlit_norm.
     repeat split; field; intro H0; apply Hnz; lra.
 Qed.
 
@@ -66,8 +66,8 @@ Lemma quadratic_refused xl yl P Q Rr S T U V W N :
   Rabs (quad_det (IZR N) P Q Rr S) < TOL ->
   CurveFitting_quadratic_fitting Rops (cfobj xl yl P Q Rr S T U V W N) = VErr ZeroDivisionError.
 Proof.
-  intro Hd. unfold quad_det, TOL in Hd.
-  unfold cfobj. pyrun_using ltac:(first [exact Hd | pylra]). reflexivity.
+  intro Hd. unfold quad_det, TOL in Hd. pose (Hnz := I).
+  unfold cfobj. pyrun2 ltac:(first [exact Hd | exact Hnz | pylra_fast]) no_idx ltac:(fun s => fail). reflexivity.
 Qed.
 
 (* explicit closed forms, as the code writes them *)
@@ -78,7 +78,9 @@ Lemma linear_value xl yl P Q Rr S T U V W N :
             VFloat ((T * Q - P * U) / lin_det (IZR N) P Q)].
 Proof.
   intro Hd. unfold lin_det, TOL in *.
-  unfold cfobj. pyrun_using ltac:(first [exact Hd | pylra]). reflexivity.
+  assert (Hnz : IZR N * Q - P * P <> 0).
+  { intro H0. rewrite H0, Rabs_R0 in Hd. Rlit_norm_in Hd. lra. }
+  unfold cfobj. pyrun2 ltac:(first [exact Hd | exact Hnz | pylra_fast]) no_idx ltac:(fun s => fail). reflexivity.
 Qed.
 
 Definition quad_a N P Q Rr S T U V :=
@@ -95,5 +97,7 @@ Lemma quadratic_value xl yl P Q Rr S T U V W N :
             VFloat (quad_c (IZR N) P Q Rr S T U V)].
 Proof.
   intro Hd. unfold quad_a, quad_b, quad_c, quad_det, TOL in *.
-  unfold cfobj. pyrun_using ltac:(first [exact Hd | pylra]). reflexivity.
+  assert (Hnz : IZR N * Q * S + Rlit 20 (-1) * P * Q * Rr - Q * Q * Q - P * P * S - IZR N * Rr * Rr <> 0).
+  { intro H0. rewrite H0, Rabs_R0 in Hd. Rlit_norm_in Hd. lra. }
+  unfold cfobj. pyrun2 ltac:(first [exact Hd | exact Hnz | pylra_fast]) no_idx ltac:(fun s => fail). reflexivity.
 Qed.
